@@ -215,6 +215,9 @@ def judgeC05 (o : Obs) : Verdict :=
 def rank (c : Int) : Nat := if c == 1 then 0 else if c == 2 then 1 else 2
 
 def judgeC06 (o : Obs) : Verdict :=
+  -- every awaiter receives the outcome: nobody is left waiting for a task that is done
+  (o.events.filter (·.tag == "stuck")).map (fun e =>
+    s!"activity {e.label} is still waiting at the end of the run for a task (or condition) that is done") ++
   let tasks := (o.events.filterMap (fun e => if e.tag == "spawn" then some (arg e 1) else none)).eraseDups
   tasks.flatMap (fun t =>
     let codes := o.events.filterMap (fun e =>
@@ -553,6 +556,11 @@ def judgeC15 (o : Obs) (start : Rat) : Verdict :=
   fail (!startBad.isEmpty) s!"root activities did not start at {start}: {startBad.map (fun f => (f.1, f.2.1))}" ++
   fail orderBad "root activities did not start in argument order" ++
   fail (o.crash == [] && !leaked.isEmpty) s!"a root activity returned {leaked.map (fun e => arg e 0)} but run() ended normally" ++
+  -- the exception that escapes a root activity is re-raised by run() unchanged
+  (match o.events.find? (fun e => e.tag == "rootexc" && e.label ≥ 0 && e.label < 1000) with
+   | some e => fail (o.crash != e.args)
+       s!"root activity {e.label} failed with {e.args} but run() {if o.crash == [] then "ended normally" else s!"raised {o.crash}"}"
+   | none => []) ++
   fail (o.crash.headD 0 == 99) s!"run() ended with an unexpected internal error {o.crash}" ++
   fail o.visible "a simulation is still visible to the thread after run() returned"
 
@@ -580,7 +588,21 @@ def judgeC20 (o : Obs) (spinners : Nat) : Verdict :=
               s!"a step of the ticker of activity {p.1.label} at {t.time} completed before runnable activity {s + 1} got a turn")
         else []
       | none => []
-    else [])
+    else []) ++
+  -- giving borrowed resources back - also when the holder is thrown out of the block by a cancellation or the interrupt of an
+  -- `until` - yields: between the end of the block's body (`bbody`) and the end of the block (`bexit`) every activity that
+  -- stays runnable (same convention: the root activities 1..k) gets a turn
+  (if (List.range spinners).all (fun (s : Nat) => o.events.any (fun e => e.label == 1 + (s : Int))) then
+    (idx o).flatMap (fun p =>
+      if p.1.tag == "bbody" then
+        match (ofLabel o p.1.label).find? (fun q => q.2 > p.2 && q.1.tag == "bexit") with
+        | some (_, j) =>
+          (List.range spinners).flatMap (fun (s : Nat) =>
+            fail (!((idx o).any (fun q => q.2 > p.2 && q.2 < j && q.1.label == 1 + (s : Int))))
+              s!"the resources of activity {p.1.label} were given back (block left {if arg p.1 0 == 1 then "by an exception" else "normally"}) before runnable activity {s + 1} got a turn")
+        | none => []
+      else [])
+  else [])
 
 /-! ### C16 - collect() / first() -/
 
